@@ -38,6 +38,18 @@ fn main() {
             let c: rccv::threads::DCase = serde_json::from_str(args.get(2).map(|s| s.as_str()).unwrap_or("{}")).expect("teardown case");
             rccv::threads::teardown_child(&c)
         }
+        "decode" => {
+            // converts a libFuzzer input file into a JSON replay file
+            let bytes = std::fs::read(args.get(2).expect("input file")).expect("read input");
+            let case = rccv::decode::decode(&bytes);
+            let prop = arg(&args, "--prop").unwrap_or("C01");
+            let v = json!({"property": prop, "engine": "g3-libfuzzer", "kind": "heap", "configuration": arg(&args, "--config-name").unwrap_or("full-dev"), "case": case, "signature": "fuzzer-found"});
+            match arg(&args, "--out") {
+                Some(o) => std::fs::write(o, serde_json::to_string_pretty(&v).unwrap()).expect("write"),
+                None => println!("{}", serde_json::to_string_pretty(&v).unwrap()),
+            }
+            0
+        }
         "features" => {
             println!(
                 "finalization={} weak-ptrs={} cleaners={} auto-collect={} debug_assertions={}",
